@@ -80,7 +80,8 @@ def cdwf_registry():
         if ip.may_raise('input-parse-raises'):
             raise PyRaise(ExcVal('ValueError', ('input',)))
         ip.prove('call/input_parse/with_field', z3.BoolVal(with_field is True))
-        return (system, g['initial_states'][i], g['dt'], g['num_steps'], g['start_time'],
+        # every system is parsed on its own: its OWN shortest process tensor / time step come back
+        return (system, g['initial_states'][i], g['dt_of_system'][i], g['steps_of_system'][i], g['start_time'],
                 g['process_tensors'][i], g['controls'][i], record_all, HSf(i))
 
     @model
@@ -166,7 +167,7 @@ def cdwf_registry():
     return R
 
 
-def cdwf_scenario(nsys, record_all=None):
+def cdwf_scenario(nsys, record_all=None, dt_differs=False):
     def scen(ip, repo):
         dt, t0 = Real('dt'), Real('start_time')
         N = Int('num_steps')
@@ -180,7 +181,17 @@ def cdwf_scenario(nsys, record_all=None):
             ip.assume(x != NONE)
         controls = [Obj('Control', {'idx': i}) for i in range(nsys)]
         pts = [Obj('PTList', {'idx': i}) for i in range(nsys)]
-        g = {'dt': dt, 'start_time': t0, 'num_steps': N, 'record_all': ra, 'nsys': nsys,
+        # what the per-system parser reports: the steps each system's own process tensors allow (N is the smallest of them: the steps
+        # the computation may take), and its time step (all equal on the paths that compute; see cdwf/parse/dt-must-agree)
+        steps_of = [Int('steps_of_system_%d' % i) for i in range(nsys)]
+        for n_i in steps_of:
+            ip.assume(n_i >= N)
+        ip.assume(z3.Or([n_i == N for n_i in steps_of]))
+        dts = [dt] * nsys
+        if dt_differs:
+            dts = [dt] + [Real('dt_of_system_%d' % i) for i in range(1, nsys)]
+            ip.assume(z3.Or([d != dt for d in dts[1:]]))
+        g = {'dt': dt, 'start_time': t0, 'num_steps': N, 'record_all': ra, 'nsys': nsys, 'steps_of_system': steps_of, 'dt_of_system': dts,
              'initial_field': init_field, 'initial_states': inits, 'controls': controls,
              'process_tensors': pts}
         ip.ghost['cdwf'] = g
